@@ -81,6 +81,17 @@ def part_a(proto):
         for g in ('g0', 'g1', 'g2'):
             cf.param.add_update_callback(group=g, cb=lambda name, val, k=('group', g): calls.append((k, name, val)))
         cf.param.add_update_callback(cb=lambda name, val: calls.append((('all',), name, val)))
+        # a second observer of every kind, registered after all the first ones (every registered callback is told)
+        for i, (code, cname, fmt, lo, hi) in enumerate(TYPES):
+            g, n = 'g%d' % (i % 3), 'p%d' % i
+            cf.param.add_update_callback(group=g, name=n, cb=lambda name, val, k=('param2', i): calls.append((k, name, val)))
+        for g in ('g0', 'g1', 'g2'):
+            cf.param.add_update_callback(group=g, cb=lambda name, val, k=('group2', g): calls.append((k, name, val)))
+        cf.param.add_update_callback(cb=lambda name, val: calls.append((('all2',), name, val)))
+
+        def told(i, g, cn, val):
+            return sorted([(('param', i), cn, val), (('group', g), cn, val), (('all',), cn, val),
+                           (('param2', i), cn, val), (('group2', g), cn, val), (('all2',), cn, val)])
         for i, (code, cname, fmt, lo, hi) in enumerate(TYPES):
             g, n = 'g%d' % (i % 3), 'p%d' % i
             cn = g + '.' + n
@@ -137,10 +148,10 @@ def part_a(proto):
                 if got_cache != exp_s or got_get != exp_s:
                     p.violation('param:set:cache:%s' % cname, 'after set_value(%s, %r) and the device answer: values=%r, '
                                 'get_value=%r, device=%s' % (cn, v, got_cache, got_get, exp_s), rp)
-                exp_calls = sorted([(('param', i), cn, exp_s), (('group', g), cn, exp_s), (('all',), cn, exp_s)])
+                exp_calls = told(i, g, cn, exp_s)
                 if sorted(calls) != exp_calls:
                     p.violation('param:set:callbacks:%s' % cname, 'update callbacks after set_value(%s, %r): %r, expected each '
-                                'of param/group/all once with %s' % (cn, v, calls, exp_s), rp)
+                                'of the two param / group / all observers once with %s' % (cn, v, calls, exp_s), rp)
             # read path (status byte stripped in V2)
             for dv in ([lo, hi, 258, 2] if lo is not None else [0.1, -0.0, F32MAX]):
                 if lo is not None and not (lo <= dv <= hi):
@@ -157,8 +168,7 @@ def part_a(proto):
                 idb = struct.pack('<H', i) if v2 else bytes([i])
                 if len(txs) != 1 or (txs[0][2] >> 4, txs[0][2] & 3) != (2, 1) or txs[0][3] != idb:
                     p.violation('param:read:wire:%s' % cname, 'request_param_update(%s) transmitted %r' % (cn, [(hex(t[2]), t[3].hex()) for t in txs]), rp)
-                if cf.param.values.get(g, {}).get(n) != exp_s or sorted(calls) != sorted(
-                        [(('param', i), cn, exp_s), (('group', g), cn, exp_s), (('all',), cn, exp_s)]):
+                if cf.param.values.get(g, {}).get(n) != exp_s or sorted(calls) != told(i, g, cn, exp_s):
                     p.violation('param:read:value:%s:%s' % (cname, 'v2' if v2 else 'v1'), 'device value %s read as %r; callbacks %r' % (
                         exp_s, cf.param.values.get(g, {}).get(n), calls), rp)
         # refusals: read-only, unknown
